@@ -58,6 +58,9 @@ func profileFor(prop, tier string) profile {
 		base.rich, base.negPct, base.maxReqs, base.stallPct = true, 12, pick(8, 16), 10
 		base.richResp = prop == "C14"
 		base.bigPct = 3
+		if prop == "C14" {
+			base.extraFrames, base.stallPct = 2, 30
+		}
 	case "C03":
 		base.randomMux, base.maxReqs, base.maxConns = true, pick(8, 14), 3
 	case "C04":
@@ -74,6 +77,7 @@ func profileFor(prop, tier string) profile {
 		base.holdAll, base.maxConns, base.maxReqs, base.minReqs = true, 4, pick(40, 256), 1
 		base.endings = []string{""}
 		base.unbindPct = 10
+		base.startTLSPct = 15
 	case "C07":
 		base.maxConns, base.maxReqs = 4, 6
 		base.faults, base.faultBudget = []string{"reset", "accept", "pause"}, 3
@@ -81,6 +85,7 @@ func profileFor(prop, tier string) profile {
 		base.lateClient, base.panicPct, base.windowPct = true, 6, 20
 		base.unbindPct, base.startTLSPct = 25, 15
 		base.onClose = []int{0, 1}
+		base.tlsPct, base.misbehave = 20, true
 	case "C08":
 		base.maxConns, base.maxReqs = pick(5, 8), 5
 		base.endings = []string{"close", "halfclose", "reset", "unbind", "midframe", "garbage", "negative", "", "close"}
@@ -130,7 +135,8 @@ func profileFor(prop, tier string) profile {
 	case "C17":
 		base.maxConns, base.maxReqs = 2, 2
 		base.readyPoll, base.badAddrPct, base.busyPortPct = true, 25, 25
-		base.stopPct, base.tlsPct = 30, 30
+		base.stopPct, base.tlsPct, base.misbehave = 30, 30, true
+		base.maxConns = 3
 	case "C15":
 		base.maxConns, base.maxReqs = 4, 8
 		base.endings = []string{"", "close", "reset", "unbind", "halfclose", "midframe"}
@@ -355,6 +361,9 @@ func DrawCore(prop, tier string, ch *Chooser, lean bool, s *Sim) *Core {
 		if cl.Flavour == 2 {
 			startTLSAt = ch.Choose(min(nReq, 2) + 1)
 			nReq++
+			// race build only: a client that does not wait for its earlier
+			// answers before StartTLS (no byte-stream oracle looks at it)
+			cl.Eager = lean && startTLSAt > 0 && ch.Choose(2) == 1
 		}
 		if prop == "C05" || prop == "C06" {
 			// mostly small, sometimes deep
@@ -395,6 +404,9 @@ func DrawCore(prop, tier string, ch *Chooser, lean bool, s *Sim) *Core {
 			q.BehindUnbind = unbindAt >= 0 && j > unbindAt
 			q.Inline = rec.Op == "unbind" || (rec.Op == "extended" && rec.ExtName == oidStartTLS)
 			c.drawScript(q, p, ch, g)
+			if cl.Eager && j < startTLSAt {
+				q.Script.Stall = 1 // still in flight when the upgrade happens
+			}
 			if j == startTLSAt {
 				q.Script.Panic = q.Script.Panic && prop == "C07" // inline handler panic (C07 only)
 				q.Script.Resps = []*RespSpec{{Ctor: "extended", HasCode: true, Code: 0}}
@@ -469,6 +481,22 @@ func DrawCore(prop, tier string, ch *Chooser, lean bool, s *Sim) *Core {
 		}
 		cfg.Clients = append(cfg.Clients, cl)
 	}
+	if prop == "C06" && ch.Choose(3) == 2 {
+		// variant: nobody stalls, but no client reads and the windows are
+		// small, so handlers block inside Write; dispatch must go on
+		cfg.HoldWrite = true
+		for _, cl := range cfg.Clients {
+			if cl.Flavour == 0 {
+				cl.Window, cl.StartPaused = 64, true
+			}
+		}
+		for _, q := range c.reqs {
+			q.Script.Stall = 0
+			if len(q.Script.Resps) > 0 && q.Script.Resps[0].Ctor != "entry" {
+				q.Script.Resps[0].Setters = append(q.Script.Resps[0].Setters, Setter{Kind: "diag", Str: string(make([]byte, 600+ch.Choose(3000)))})
+			}
+		}
+	}
 	return c
 }
 
@@ -523,7 +551,40 @@ func (c *Core) drawScript(q *Req, p profile, ch *Chooser, g *Gen) {
 			sc.Resps = append(sc.Resps, g.Resp(op, false, p.richResp))
 		}
 	}
-	sc.Resps = append(sc.Resps, g.Resp(op, true, p.richResp))
+	if op == "search" && len(sc.Resps) > 0 && p.richResp && ch.Choose(8) == 7 {
+		// a handler that streams entries and (not yet, or never) finishes
+	} else {
+		sc.Resps = append(sc.Resps, g.Resp(op, true, p.richResp))
+	}
+	sc.ReuseCtrl = p.richResp && ch.Choose(2) == 1
+	defer func() {
+		if !sc.ReuseCtrl || ch.Choose(2) == 0 {
+			return
+		}
+		// a paged-search style handler: the kept paging control keeps its page
+		// size and gets a new cookie of the same length for every response
+		var first *CtrlRec
+		for _, sp := range sc.Resps {
+			for si := range sp.Setters {
+				cs := sp.Setters[si].Ctrl
+				for ci := range cs {
+					if cs[ci].Kind != "paging" {
+						continue
+					}
+					if first == nil {
+						first = &cs[ci]
+						if len(first.Cookie) == 0 {
+							first.Cookie = ch.Bytes(4 + ch.Choose(8))
+						}
+					} else {
+						cs[ci].PageSize = first.PageSize
+						cs[ci].Cookie = ch.Bytes(len(first.Cookie))
+					}
+					break
+				}
+			}
+		}
+	}()
 	if p.extraFrames > 0 {
 		n := ch.Choose(p.extraFrames + 1)
 		for i := 0; i < n; i++ {
